@@ -371,14 +371,14 @@ where
     ) -> Option<WorkerId> {
         // check sticky first
         if let Some(worker) = worker_hint.and_then(|worker| worker_pool.get(&worker)) {
-            if worker.is_processing_key(&job.key) {
+            if worker.has_pending_key(&job.key) {
                 return worker_hint;
             }
         }
 
         let maybe_worker = worker_pool
             .iter()
-            .find(|(_, worker)| worker.is_processing_key(&job.key))
+            .find(|(_, worker)| worker.has_pending_key(&job.key))
             .map(|(a, _)| *a);
         if maybe_worker.is_some() {
             return maybe_worker;
